@@ -4,6 +4,9 @@ from .. import cells
 
 
 def check(run, only=None):
+    from .. import e3
+    e3.run_parts(run, ["dispatcher"], only=only)
+    run.notes.append("E3 (MIR symbolic execution): composition - every node kind of the real dispatcher hands its sub-results, in order, to the operator function the cells decide, and returns its result (node_* obligations); cross-check that the MIR applies the function the source text names")
     from .. import arms as armslices
     from . import c05
     apre, ahs = armslices.gen(run, run.tier, run.seed, results_only=True)
@@ -34,6 +37,10 @@ def check(run, only=None):
 
 
 def replay(run, path):
+    import json as _json
+    if _json.load(open(path)).get("replay", {}).get("engine") == "e3":
+        from ..e3replay import replay_file as _rf
+        return _rf(run, path)
     from ..replay import replay_file
     from ..kani import Overlay
 
